@@ -16,11 +16,13 @@ corr   = Model/Assign.v evaluated by vm_compute on the same histories (Corr/C07.
          must agree; the model's two geometric oracles are tables filled with what find_lanelet_by_position /
          find_lanelet_by_shape return for the obstacle's states (that these agree with the geometry is C06 and
          clause (2) above)."""
+import atexit
 import contextlib
 import io
 import logging
 import math
 import os
+import shutil
 import tempfile
 import warnings
 
@@ -74,6 +76,7 @@ def tmpdir():
     if _TMP is None:
         base = "/var/tmp/c07" if os.path.isdir("/var/tmp/c07") else os.environ.get("VERIF_TMP", "/var/tmp")
         _TMP = tempfile.mkdtemp(prefix="c07_", dir=base)
+        atexit.register(shutil.rmtree, _TMP, True)
     return _TMP
 
 
@@ -820,7 +823,7 @@ def run(ctx):
     ctx.build_props(extra_targets=["Corr/C07.vo"])
     if ctx.tier == "thorough":
         ctx.coqchk()
-    n = ctx.n(800, 12000)
+    n = ctx.n(600, 12000)
     items = []
     undecided = 0
     placements = {}
